@@ -628,7 +628,19 @@ def arm(*groups):
                     _depth["chains"] -= 1
 
             D.DecFileParser.build_decay_chains = build_decay_chains
-            D.DecFileParser.expand_decay_modes = icontract.ensure(expansion_is_paths, error=ContractBroken)(D.DecFileParser.expand_decay_modes)
+            def _expand_size(self, particle):
+                try:
+                    T = parser_tables(self)
+                    if particle in T and _reach_acyclic(T, particle):
+                        lines, paths = chains.ref_sizes(T, particle, {})
+                        # every sub-table is expanded once per occurrence: bounded by (lines + paths) * a few line events
+                        return int(min(lines * 4 + paths * 6, 5_000_000))
+                except Exception:  # noqa: BLE001
+                    pass
+                return 100_000
+
+            real_expand = _budgeted(D.DecFileParser.expand_decay_modes, _expand_size, ["decaylanguage.decay.decay:_expand_decay_modes"])
+            D.DecFileParser.expand_decay_modes = icontract.ensure(expansion_is_paths, error=ContractBroken)(real_expand)
         elif g == "list_structure":
             import decaylanguage.modeling.decay as MD  # noqa: PLC0415
 
